@@ -23,7 +23,8 @@ const (
 
 // MinterCfg is the abstract (JSON-able) description of a generated minter configuration.
 type MinterCfg struct {
-	StartOffNs int64       `json:"start_off_ns"` // relative to T0
+	BaseNs     int64       `json:"base_ns,omitempty"` // absolute unix ns the start offset refers to (0 = T0)
+	StartOffNs int64       `json:"start_off_ns"` // relative to BaseNs / T0
 	FirstID    uint32      `json:"first_id"`
 	Denom      string      `json:"denom"`
 	Periods    []MinterPer `json:"periods"`
@@ -179,6 +180,9 @@ func mustAny(v interface {
 // Build converts the abstract configuration to the real Params and to the reference Schedule.
 func (c MinterCfg) Build() (mintertypes.Params, Schedule) {
 	start := T0.Add(time.Duration(c.StartOffNs))
+	if c.BaseNs != 0 {
+		start = nsTime(c.BaseNs + c.StartOffNs)
+	}
 	params := mintertypes.Params{MintDenom: c.Denom, StartTime: start}
 	sched := Schedule{StartNs: start.UnixNano()}
 	cur := start
